@@ -257,9 +257,28 @@ func blankText(n *hnode) bool {
 	return n.tag == "" && strings.TrimFunc(n.text, unicode.IsSpace) == ""
 }
 
-// htmlBlocks reads the children of a block container (root, blockquote, li).
-func htmlBlocks(ns []*hnode, inLi bool, out *[]xblk) error {
+// startsWithBox: the inline content starts with the check box of a task item
+func startsWithBox(ns []*hnode) bool {
+	for _, n := range ns {
+		if blankText(n) {
+			continue
+		}
+		return n.tag == "input"
+	}
+	return false
+}
+
+// htmlBlocks reads the children of a block container (root, blockquote, li). lc is the list context of the
+// container (depth -1 outside any list), inLi says that the container is the list item itself.
+func htmlBlocks(ns []*hnode, inLi bool, lc lctx, out *[]xblk) error {
 	first := true
+	para := func(cs []ch, kids []*hnode) xblk {
+		x := xblk{kind: "p", cs: collapse(cs), item: inLi && first, depth: lc.depth}
+		if x.item {
+			x.ord, x.task = lc.ord, startsWithBox(kids)
+		}
+		return x
+	}
 	for i := 0; i < len(ns); {
 		n := ns[i]
 		if blankText(n) {
@@ -276,7 +295,7 @@ func htmlBlocks(ns []*hnode, inLi bool, out *[]xblk) error {
 			if err != nil {
 				return err
 			}
-			*out = append(*out, xblk{kind: "p", cs: collapse(cs), item: inLi && first})
+			*out = append(*out, para(cs, ns[i:j]))
 			first = false
 			i = j
 			continue
@@ -288,17 +307,17 @@ func htmlBlocks(ns []*hnode, inLi bool, out *[]xblk) error {
 			if err != nil {
 				return err
 			}
-			*out = append(*out, xblk{kind: "h", level: int(n.tag[1] - '0'), cs: collapse(cs)})
+			*out = append(*out, xblk{kind: "h", level: int(n.tag[1] - '0'), cs: collapse(cs), depth: lc.depth})
 		case "p":
 			cs, err := htmlInl(n.kids, 0)
 			if err != nil {
 				return err
 			}
-			*out = append(*out, xblk{kind: "p", cs: collapse(cs), item: inLi && first})
+			*out = append(*out, para(cs, n.kids))
 		case "hr":
-			*out = append(*out, xblk{kind: "hr"})
+			*out = append(*out, xblk{kind: "hr", depth: lc.depth})
 		case "blockquote":
-			if err := htmlBlocks(n.kids, false, out); err != nil {
+			if err := htmlBlocks(n.kids, false, lc, out); err != nil {
 				return err
 			}
 		case "ul", "ol":
@@ -309,7 +328,7 @@ func htmlBlocks(ns []*hnode, inLi bool, out *[]xblk) error {
 				if li.tag != "li" {
 					return fmt.Errorf("<%s> in list", li.tag)
 				}
-				if err := htmlBlocks(li.kids, true, out); err != nil {
+				if err := htmlBlocks(li.kids, true, lctx{depth: lc.depth + 1, ord: n.tag == "ol"}, out); err != nil {
 					return err
 				}
 			}
@@ -331,7 +350,7 @@ func htmlBlocks(ns []*hnode, inLi bool, out *[]xblk) error {
 			t = strings.TrimSuffix(t, "\n")
 			for _, l := range strings.Split(t, "\n") {
 				// a line ending is LF or CRLF (CommonMark 2.1); goldmark copies the CR of a CRLF source into the <pre>
-				*out = append(*out, xblk{kind: "code", line: strings.TrimSuffix(l, "\r")})
+				*out = append(*out, xblk{kind: "code", line: strings.TrimSuffix(l, "\r"), depth: lc.depth})
 			}
 		case "table":
 			t := &xtbl{}
@@ -376,7 +395,7 @@ func htmlBlocks(ns []*hnode, inLi bool, out *[]xblk) error {
 					t.cells = append(t.cells, cells)
 				}
 			}
-			*out = append(*out, xblk{kind: "tbl", tbl: t})
+			*out = append(*out, xblk{kind: "tbl", tbl: t, depth: lc.depth})
 		default:
 			return fmt.Errorf("block <%s>", n.tag)
 		}
@@ -394,7 +413,7 @@ func readHTML(html string) ([]xblk, error) {
 		return nil, err
 	}
 	var out []xblk
-	if err := htmlBlocks(root.kids, false, &out); err != nil {
+	if err := htmlBlocks(root.kids, false, lctx{depth: -1}, &out); err != nil {
 		return nil, err
 	}
 	return out, nil
